@@ -10,6 +10,7 @@ import (
 	"os"
 	"os/exec"
 	"path/filepath"
+	"regexp"
 	"sort"
 	"strings"
 	"sync"
@@ -352,6 +353,8 @@ type solveResult struct {
 
 // procSem bounds the number of solver processes running at once (the portfolio would otherwise
 // oversubscribe the machine and turn 5 s proofs into timeouts).
+var noRetry *regexp.Regexp
+
 var procSem = make(chan struct{}, 14)
 
 func runSolver(ctx context.Context, sp solverSpec, text string, dir, base string, timeoutS, seed int) solveResult {
@@ -521,6 +524,9 @@ func dischargeAll(obs []*Obligation, prelude, dir string, timeoutS, seed, worker
 	// (at most 5 obligations: a tree that really breaks a property fails many, and is not retried)
 	var cand []*Obligation
 	for _, o := range obs {
+		if noRetry != nil && noRetry.MatchString(o.Name) {
+			continue // a listed known finding: it is expected to stay open
+		}
 		if o.Status == "undischarged" && strings.Contains(o.Detail, "timeout") && !strings.Contains(o.Detail, "DISAGREEMENT") {
 			cand = append(cand, o)
 		}
